@@ -1,3 +1,83 @@
 package main
 
-func run6(f []string) (string, bool) { return "", false }
+import (
+	"encoding/hex"
+	"fmt"
+	"strings"
+
+	"github.com/ja7ad/otp"
+)
+
+// chunkReader delivers at most `chunk` bytes per Read (a reader is allowed to return short).
+type chunkReader struct {
+	sr    *streamReader
+	chunk int
+}
+
+func (c *chunkReader) Read(p []byte) (int, error) {
+	if len(p) > c.chunk {
+		p = p[:c.chunk]
+	}
+	return c.sr.Read(p)
+}
+
+// gv: generate, then validate the *very string* that generation returned (no copy) for a second
+// counter / instant / input, and finally report the string again: a code that shares memory with
+// a scratch buffer changes under the caller or is accepted where it must not be.
+func gvOut(code string, ok bool, err error) string {
+	return verdict(ok, err) + "|" + hex.EncodeToString([]byte(code))
+}
+
+func run6(f []string) (string, bool) {
+	switch f[0] {
+	case "gvhotp":
+		p := parseParam(f[4])
+		code, err := otp.GenerateHOTP(string(unhx(f[1])), u64(f[2]), p)
+		if err != nil {
+			return errOut(err), true
+		}
+		ok, e := otp.ValidateHOTP(string(unhx(f[1])), code, u64(f[3]), p)
+		return gvOut(code, ok, e), true
+	case "gvtotp":
+		p := parseParam(f[4])
+		code, err := otp.GenerateTOTP(string(unhx(f[1])), parseTime(f[2]), p)
+		if err != nil {
+			return errOut(err), true
+		}
+		ok, e := otp.ValidateTOTP(string(unhx(f[1])), code, parseTime(f[3]), p)
+		return gvOut(code, ok, e), true
+	case "gvocra":
+		c := parseSuite(f[2])
+		code, err := otp.GenerateOCRA(string(unhx(f[1])), c, parseInput(f[3]))
+		if err != nil {
+			return errOut(err), true
+		}
+		ok, e := otp.ValidateOCRA(string(unhx(f[1])), code, c, parseInput(f[4]))
+		return gvOut(code, ok, e), true
+	case "gocra_mut": // a RawSuite obtained from the constructor whose exported fields are then overwritten
+		r := otp.MustRawSuite(string(unhx(f[1])))
+		r.SuiteConfig = parseSuite(f[3])
+		return strOrErr(otp.GenerateOCRA(string(unhx(f[2])), r, parseInput(f[4]))), true
+	case "vocra_mut":
+		r := otp.MustRawSuite(string(unhx(f[1])))
+		r.SuiteConfig = parseSuite(f[4])
+		return verdict(otp.ValidateOCRA(string(unhx(f[2])), string(unhx(f[3])), r, parseInput(f[5]))), true
+	case "randchunk":
+		sr := &streamReader{buf: unhx(f[1])}
+		var sb strings.Builder
+		sb.WriteString("r:")
+		withReader(&chunkReader{sr: sr, chunk: int(u64(f[2]))}, func() {
+			for _, a := range strings.Split(f[3], ",") {
+				pos := sr.pos
+				s, err := otp.RandomSecret(otp.Algorithm(u64(a)))
+				if err != nil {
+					fmt.Fprintf(&sb, "%d:err;", pos)
+				} else {
+					fmt.Fprintf(&sb, "%d:%s;", pos, s)
+				}
+			}
+		})
+		return sb.String(), true
+	}
+	return run7(f)
+}
